@@ -6,7 +6,7 @@ PROPS["C27"] = {
     "nontrivial": lambda c: c["input"].count(" ") >= 3,
     "rule": "c27.exhaustive: all pairs of sequences of length <= k over 3 symbols (k=4: 14 641 pairs quick; k=6: 1.19 M thorough); c27.random: texts of 0..13 (1/6: 15..54) lines, b independent or an edited copy of a (deletions, insertions, replacements, inserted runs of up to 19 fresh lines); per pair: the lcs edit script and the rendered unified diff parsed back into hunks",
     "modelled": "util/diff/diff.go lcs, trace, middle (with the shared buffer threaded through the recursion), chunk.merge, LineDiff's hunk builder (hunk.add with elision, writeTo) in structured form; strings.Split/Sprintf are replaced by line ids (harness maps them back)",
-    "partial": "totality of the model of lcs (that middle always finds a snake within its fuel whose coordinates pass trace's bounds/no-progress checks, i.e. LcsFatal/LcsFuel never occur) is not proved; these outcomes are compared with the implementation on every generated pair",
+    "partial": "totality of the model of trace/lcs (LcsFatal/LcsFuel never occur) is not proved: middle is proved to always find a snake (C27_middle_always_finds_a_snake), but not that its coordinates always pass trace's slice-bounds and no-progress checks; these outcomes are compared with the implementation on every generated pair",
     "level_text": "Coq theorems, all pairs of sequences: every script accepted by script_ok turns a into b; whatever script the model of diff.lcs returns is accepted; no valid script is cheaper than |a|+|b|-2*LCS (L proved to be the length of a longest common subsequence; quadratic table proved equal); "
                   "and minimality of the algorithm itself (C27_script_minimal): whenever the model of lcs - prefix/suffix trimming, trace, the real Myers middle-snake search with its diagonal windows and the shared buffer threaded through the recursion, chunk merging - returns a script, its cost is exactly |a|+|b|-2*LCS(a,b). "
                   "Proved from the classical invariants: furthest-reaching points per round and diagonal (greedy lemma), non-aliasing of the two buffer halves, the forward/reverse overlap test finds a middle snake of an optimal path and cannot miss one (C27_middle_snake_is_optimal). "
